@@ -499,7 +499,7 @@ func safeCall(fn reflect.Value, args []reflect.Value) (res []reflect.Value, perr
 			stack = strings.Join(keep, "\n")
 		}
 	}()
-	res = fn.Call(args)
+	res = callFn(fn, args)
 	return
 }
 
@@ -543,7 +543,7 @@ func runConcurrent(spec *Spec, r *Ref, m *MethodSpec, fn reflect.Value, S reflec
 				args := mkArgs()
 				<-start
 				for k := 0; k < 15; k++ {
-					out := fn.Call(args)
+					out := callFn(fn, args)
 					results[w] = out[0]
 				}
 			}(w)
@@ -768,4 +768,12 @@ func wrapPath(err error) []string {
 		err = u.Unwrap()
 	}
 	return out
+}
+
+// callFn calls fn; the slice given for a variadic parameter is passed as x...
+func callFn(fn reflect.Value, args []reflect.Value) []reflect.Value {
+	if fn.Type().IsVariadic() {
+		return fn.CallSlice(args)
+	}
+	return fn.Call(args)
 }
